@@ -3,6 +3,7 @@
 From Coq Require Import ZArith List.
 From AGH Require Import Base.Run Model.Schedule Proofs.Schedule.
 From AGH Require Import Model.ScheduleText Proofs.ScheduleText.
+From AGH Require Import Model.BlockedSvcHttp Proofs.BlockedSvcHttp.
 Local Open Scope Z_scope.
 
 (** For every zone (any offset function), instant and schedule: in effect
@@ -146,3 +147,138 @@ Proof.
   unfold weekly_ok; cbn [repeat].
   repeat (apply Forall_cons; [right; vm_compute; intuition congruence|]). apply Forall_nil.
 Qed.
+
+(** * The HTTP handlers of the blocked services (Model/BlockedSvcHttp.v)
+
+    [known]: the service table (any).  [step known o s]: status and stored
+    value after request [o]; [run]: a history. *)
+
+(** The deprecated POST /control/blocked_services/set replaces the ids and
+    nothing else: the pause schedule (zone and ranges) is the one from before. *)
+Theorem C18_legacy_set_keeps_schedule : forall known ids s,
+  bs_sched (snd (step known (OSet ids) s)) = bs_sched s /\
+  bs_ids (snd (step known (OSet ids) s)) = ids /\
+  fst (step known (OSet ids) s) = st_ok.
+Proof. exact legacy_set_keeps_schedule. Qed.
+Print Assumptions C18_legacy_set_keeps_schedule.
+
+Theorem C18_non_update_keeps_schedule : forall known o s,
+  is_update o = false -> bs_sched (snd (step known o s)) = bs_sched s.
+Proof. exact non_update_keeps_schedule. Qed.
+Print Assumptions C18_non_update_keeps_schedule.
+
+(** Hence the pause verdict at every instant in every zone is unchanged by a
+    legacy set, and is the wall-clock reading of the ranges configured before
+    it (with C18_wall_clock). *)
+Theorem C18_legacy_set_keeps_verdict : forall known ids s off t,
+  contains (sc_days (bs_sched (snd (step known (OSet ids) s)))) off t =
+  contains (sc_days (bs_sched s)) off t.
+Proof. exact legacy_set_keeps_verdict. Qed.
+Print Assumptions C18_legacy_set_keeps_verdict.
+
+Theorem C18_legacy_set_wall_clock : forall known ids s off t,
+  contains (sc_days (bs_sched (snd (step known (OSet ids) s)))) off t = true <->
+  in_effect (sc_days (bs_sched s)) off t.
+Proof. exact legacy_set_wall_clock. Qed.
+Print Assumptions C18_legacy_set_wall_clock.
+
+(** Blocking after a legacy set: the new list is applied exactly outside the
+    pause configured before it. *)
+Theorem C18_apply_after_legacy_set : forall known ids s off t,
+  let s' := snd (step known (OSet ids) s) in
+  apply known s' (contains (sc_days (bs_sched s')) off t) =
+  if contains (sc_days (bs_sched s)) off t then nil else filter (id_known known) ids.
+Proof. exact apply_after_legacy_set. Qed.
+Print Assumptions C18_apply_after_legacy_set.
+
+(** For every history: the schedule in effect afterwards is the one of the
+    last accepted update, whatever requests (legacy sets, rejected updates,
+    gets) came after it; with no accepted update it is the configured one. *)
+Theorem C18_schedule_is_last_update : forall known s ops1 o ops2 sc,
+  accepted_update known o sc -> no_accepted_update known ops2 ->
+  bs_sched (run known s (ops1 ++ o :: ops2)) = sc.
+Proof. exact schedule_is_last_update. Qed.
+Print Assumptions C18_schedule_is_last_update.
+
+Theorem C18_no_update_keeps_schedule : forall known ops s,
+  no_accepted_update known ops -> bs_sched (run known s ops) = bs_sched s.
+Proof. exact no_update_keeps_schedule. Qed.
+Print Assumptions C18_no_update_keeps_schedule.
+
+Theorem C18_update_then_legacy_sets : forall known s ops1 sch ids sc ops2,
+  update_accepted known sch ids sc ->
+  forallb (fun o => negb (is_update o)) ops2 = true ->
+  bs_sched (run known s (ops1 ++ OUpdate sch ids :: ops2)) = sc.
+Proof. exact update_then_legacy_sets. Qed.
+Print Assumptions C18_update_then_legacy_sets.
+
+(** A rejected update (schedule member that does not decode: number syntax,
+    unknown zone, a range outside the documented ones; or an id outside the
+    table) is not answered 200 and changes nothing; so does every request
+    that is not answered 200. *)
+Theorem C18_failed_update_is_noop : forall known sch ids s,
+  (forall sc, ~ update_accepted known sch ids sc) ->
+  snd (step known (OUpdate sch ids) s) = s /\ fst (step known (OUpdate sch ids) s) <> st_ok.
+Proof. exact failed_update_is_noop. Qed.
+Print Assumptions C18_failed_update_is_noop.
+
+Theorem C18_failed_request_is_noop : forall known o s,
+  fst (step known o s) <> st_ok -> snd (step known o s) = s.
+Proof. exact failed_request_is_noop. Qed.
+Print Assumptions C18_failed_request_is_noop.
+
+(** Invariant over every history: the stored schedule is seven validated
+    ranges. *)
+Theorem C18_stored_schedule_valid : forall known ops s,
+  sched_ok (bs_sched s) -> sched_ok (bs_sched (run known s ops)).
+Proof. exact stored_schedule_valid. Qed.
+Print Assumptions C18_stored_schedule_valid.
+
+(** GET after an accepted update reports the ids, the zone and the validated
+    ranges that were sent (as the number texts of C18_roundtrip_json_text);
+    sending what GET reported stores the same value again. *)
+Theorem C18_get_after_update_roundtrip : forall known d ids sc s,
+  update_accepted known (Some d) ids sc ->
+  let s' := snd (step known (OUpdate (Some d) ids) s) in
+  get s' = (ids, sc_zone sc, marshal_json_text (sc_days sc)) /\
+  sd_zone d = Some (sc_zone sc) /\
+  unmarshal_fields parse_json_dur 7 (sd_fields d) = inr (sc_days sc) /\
+  sched_ok sc /\
+  forall s2, snd (step known (OUpdate (Some (doc_of_get (get s'))) ids) s2) = s'.
+Proof. exact get_after_update_roundtrip. Qed.
+Print Assumptions C18_get_after_update_roundtrip.
+
+Theorem C18_get_reads_back : forall s,
+  sched_ok (bs_sched s) -> decode_sched (doc_of_get (get s)) = Some (bs_sched s).
+Proof. exact get_reads_back. Qed.
+Print Assumptions C18_get_reads_back.
+
+(** Seven full days pause at every instant in every zone; zero ranges never. *)
+Theorem C18_const_week : forall w b,
+  week_const w = Some b -> forall off t, contains w off t = b.
+Proof. exact week_const_spec. Qed.
+Print Assumptions C18_const_week.
+
+(** Non-vacuity of the premises above: an accepted update, two rejected
+    ones (id outside the table; zone that does not load), and a history
+    update / legacy set / legacy set with an unknown id / rejected update. *)
+Example C18_http_premises_satisfiable :
+  update_accepted ex_known (Some ex_doc) (cons (cons 97%N nil) nil) ex_sched /\
+  ((forall sc, ~ update_accepted ex_known (Some ex_doc) (cons (cons 99%N nil) nil) sc) /\
+   (forall sc, ~ update_accepted ex_known
+                   (Some {| sd_zone := None; sd_fields := sd_fields ex_doc |})
+                   (cons (cons 97%N nil) nil) sc)).
+Proof. exact (conj ex_update_accepted ex_update_rejected). Qed.
+Print Assumptions C18_http_premises_satisfiable.
+
+Example C18_http_history_example :
+  let s0 := {| bs_ids := nil; bs_sched := empty_weekly |} in
+  let ops := cons (OUpdate (Some ex_doc) (cons (cons 97%N nil) nil))
+            (cons (OSet (cons (cons 98%N nil) nil))
+            (cons (OSet (cons (cons 120%N nil) nil))
+            (cons (OUpdate (Some ex_doc) (cons (cons 99%N nil) nil)) nil))) in
+  bs_sched (run ex_known s0 ops) = ex_sched /\ bs_ids (run ex_known s0 ops) = cons (cons 120%N nil) nil /\
+  sched_ok ex_sched /\
+  week_const (repeat full_day 7) = Some true /\ week_const (sc_days empty_weekly) = Some false.
+Proof. exact ex_history. Qed.
+Print Assumptions C18_http_history_example.
